@@ -15,15 +15,18 @@ NA = {
 }
 TECH = {
     "C01": "dominance/fact analysis of insertion guards over MIR (GUARD, NOPANIC-AFTER-WRITE, TOTAL, ENCAPS)",
-    "C02": "effect/purity analysis, panic-site discharge and id-source taint over MIR (PURE, TOTAL, IDSRC)",
+    "C02": "effect/purity analysis, panic-site discharge, id-source taint and truth-table comparison of derived queries with "
+           "their definitions over MIR (PURE, TOTAL, IDSRC, DEFN)",
     "C03": "typestate/schema conformance of the lazy-deletion Dijkstra iterator over MIR dominance + must-facts",
     "C04": "schema conformance of the BFS iterator over MIR dominance + must-facts",
     "C05": "schema conformance of the predecessor iterators and shortest_path over MIR dominance + must-facts",
     "C06": "schema conformance of the stack-DFS iterators over MIR dominance + must-facts (EXHAUST known finding)",
-    "C07": "sibling agreement of the unrolled relaxation sites + loop-counter dataflow over MIR",
+    "C07": "relaxation-unit guard dominance over MIR + exhaustive evaluation of the extracted round-counter skeleton "
+           "(ARC-COVERAGE) + flag dataflow",
     "C08": "loop-nesting / guard dominance of the Floyd-Warshall update and row-major layout agreement over MIR",
     "C11": "purity, id-source taint and worker-thread structure analysis over MIR",
-    "C12": "id-source taint, monotone-flag and unsafe-obligation analysis of the structural predicate sites over MIR",
+    "C12": "id-source taint, monotone-flag, unsafe-obligation analysis and truth-table comparison of predicate closures with "
+           "their definitions over MIR",
     "C13": "unsafe-operation inventory with bounds/initialisation obligations discharged by dominance facts, struct/worklist "
            "invariants, contiguity contract and closure-capture import; leak-source pairing",
     "C14": "must-pass-through admissibility analysis of generator returns + worker-thread structure over MIR",
